@@ -21,6 +21,7 @@ import (
 	"errors"
 	"fmt"
 	"math/rand"
+	"reflect"
 	"sync"
 )
 
@@ -411,8 +412,19 @@ func ExtractRule(ctx *Context, fact Map, required bool) (Map, error) {
 			expires, have := fact["expires"]
 			Log(DEBUG, ctx, "ExtractRule", "expires", expires)
 			if have {
-				// ToDo: Probably shouldn't modify given fact this way.
-				vv["expires"] = expires
+				if cur, given := vv["expires"]; given && reflect.DeepEqual(cur, expires) {
+					return vv, nil
+				}
+				// Hand out the expiration with the body, but
+				// don't write it into the given fact: callers
+				// (FindRules) hold the state's read lock at
+				// most, and the fact is the stored one.
+				body := make(map[string]interface{}, len(vv)+1)
+				for p, v := range vv {
+					body[p] = v
+				}
+				body["expires"] = expires
+				return body, nil
 			}
 			return vv, nil
 		default:
